@@ -1,10 +1,16 @@
 import PorepyVerif.C43.Props
+import PorepyVerif.C43.PropsReal
 #print axioms PorepyVerif.C43.convert_roundtrip
 #print axioms PorepyVerif.C43.convert_succeeds_both_ways
 #print axioms PorepyVerif.C43.convert_compose
 #print axioms PorepyVerif.C43.convert_exponent_add
 #print axioms PorepyVerif.C43.derived_consistent
 #print axioms PorepyVerif.C43.derived_monomial
+#print axioms PorepyVerif.C43.degree_agrees_with_rad
 #print axioms PorepyVerif.C43.constants_roundtrip
 #print axioms PorepyVerif.C43.constants_back_to_si
 #print axioms PorepyVerif.C43.scaled_roots
+#print axioms PorepyVerif.C43.convert_roundtrip_real
+#print axioms PorepyVerif.C43.convert_compose_real
+#print axioms PorepyVerif.C43.convert_exponent_add_real
+#print axioms PorepyVerif.C43.convert_real_extends
